@@ -173,6 +173,15 @@ func init() {
 			{Name: "url-predicate", Space: "urlAlpha^<=4 (quick) / <=5 (thorough): scheme letters, references, junk bytes", Share: 1,
 				Run:  func(w *fw.W) { w.Trie(urlAlpha, 1, w.Pick(4, 5)) },
 				Eval: func(w *fw.W, s, _ string) { evalC07Pred(w, s, "url") }},
+			{Name: "url-long-references", Space: "URL values that start with / contain a reference whose digit run has 0..46 digits (first digit, 0^k or F^k / 9^k for k in 0..40, chosen last digits) followed by the rest of a scheme: the URL predicate of model and implementation", Share: 1,
+				Run: func(w *fw.W) {
+					refs := longDigitRefs()
+					w.Each(len(refs), func(i int) {
+						w.Item(refs[i]+"avascript:x", "")
+						w.Item("d"+refs[i]+"ata:x", "")
+					})
+				},
+				Eval: func(w *fw.W, s, _ string) { evalC07Pred(w, s, "url") }},
 		},
 	})
 }
